@@ -2,7 +2,7 @@
 # amaranth: UnusedElaboratable=no
 from hypothesis import strategies as st
 
-from vlib import gens, muxsim
+from vlib import gens, muxsim, sim
 from vlib.csrmodel import conforming_stimulus, arbitrary_stimulus
 from vlib.common import Violation
 
@@ -15,7 +15,7 @@ RULE = ("Generated register layouts (widths 0..5 bus words, r/w/rw, implicit / n
         "the reference model (r_stb of every register; bus.r_data). Non-trivial = >= 2 registers and "
         "a multi-chunk readable register read completely. Distinct = canonical JSON.")
 BUDGET = {"quick": (16, 500), "thorough": (16, 8000)}
-ESSENTIAL = ["unaligned", "padded", "multi_chunk", "zero_width", "shared_chunk", "stim:conf", "stim:arb",
+ESSENTIAL = ["high_base_address", "unaligned", "padded", "multi_chunk", "zero_width", "shared_chunk", "stim:conf", "stim:arb",
              "aborted", "pipelined", "simultaneous_rw", "unmapped_access", "finite_overlaps_ok"]
 ASSUMPTIONS = [
     "data returned by non-conforming sequences is unspecified and not compared (only strobe exactness and zero-when-idle)",
@@ -32,7 +32,7 @@ def _spec(draw, tier):
 
 
 def strategy(tier):
-    return _spec(tier)
+    return gens.with_pre(_spec(tier))
 
 
 def stim_labels(stim, facts, lay, stats):
@@ -61,6 +61,8 @@ def stim_labels(stim, facts, lay, stats):
 
 
 def check(spec, stats):
+    if sim.set_pre(spec):
+        stats.label("pre_elaborated")
     lay, stim = spec["lay"], spec["stim"]
     aw, plan = gens.plan_csr_layout(lay)
     muxsim.layout_labels(lay, plan, stats)
